@@ -274,7 +274,8 @@ class Ctx(object):
                     "evaluations": 0, "distinct_nontrivial": 0, "rule": "",
                     "tlc_jobs": [], "actions": {}}
         self.assumptions = []
-        self.violations = []       # (key, detail, replay)
+        self.violations = []       # (key, replay path), one per distinct key
+        self._vkeys = {}           # key -> number of failing cases
         self.known = []
         self.warnings = []
         self._kf = load_known_findings()
@@ -318,9 +319,13 @@ class Ctx(object):
                 if (k["match"], k["what"]) not in [(x[0], x[1]) for x in self.known]:
                     self.known.append((k["match"], k["what"], key))
                 return False
+        if key in self._vkeys:          # same failing class seen already in this run
+            self._vkeys[key] += 1
+            return True
+        self._vkeys[key] = 1
         path = self.write_replay(key, detail if replay is None else replay)
         self.violations.append((key, path))
-        if len(self.violations) <= 20:
+        if len(self.violations) <= 40:
             print("VIOLATION property=%s replay=%s  # %s" % (self.pid, path, key))
             sys.stdout.flush()
         return True
@@ -354,6 +359,7 @@ class Ctx(object):
             "assumptions": self.assumptions,
             "wall_s": round(time.time() - self.t0, 2),
             "violations": len(self.violations),
+            "violating_cases": sum(self._vkeys.values()),
             "known_findings_hit": [k[1] for k in self.known],
             "warnings": self.warnings, "notes": self.notes,
         }
@@ -363,8 +369,8 @@ class Ctx(object):
         with open(os.path.join(VERIF, "evidence", self.pid + ".json"), "w") as f:
             json.dump(ev, f, indent=1, sort_keys=True, default=str)
         shutil.rmtree(self.workdir, ignore_errors=True)
-        if len(self.violations) > 20:
-            print("... %d violations in total" % len(self.violations))
+        if len(self.violations) > 40:
+            print("... %d distinct violations in total" % len(self.violations))
         return 1 if self.violations else 0
 
 
